@@ -155,6 +155,108 @@ def tok_job(P, alpha, a_src, b_src, max_sw):
     return E.Job(f"tok:{a_src[:30]}||{b_src[:30]}", make_engine, once, split=("depth", 8), max_samples=2), (tA, tB)
 
 
+# ---------------------------------------------------------------- (d) symbolic first instance, canary second instances
+CANARIES = [
+    "typedef int T; void f(void) { again: T v; v = 1; goto again; }",
+    "typedef int T; struct pixel { T r, g, b; int T; }; int f(int w, int T); typedef int T;",
+    "typedef char T; T v[3] = { (T)1, 2 }; void h(T p) { T *q = &p; { int T; T = 1; } first: T: q = 0; }",
+    "int a[3] = { [1] = 2 }; struct s { int x : 3; } v = { .x = 1 }; enum e { A, B = A + 1 }; int k(a, b) int a; char *b; { return a; }",
+    "void g(int x) { switch (x) { case 1: x++; default: break; } for (int i = 0; i < x; i++) ; do x--; while (x); if (x) x = x ? 1 : 2; else return; }",
+    "#pragma once\n_Static_assert(1, \"m\"); _Alignas(8) int al; int (*fp)(int, ...); char *s = \"a\" \"b\"; void e(void) { extern f2(); sizeof(int[3]); (char)1; }",
+]
+
+
+def module_containers(mod):
+    """the mutable containers reachable as module-level names or class attributes of `mod` (what instances can share)"""
+    out = []
+    seen = set()
+    owners = [vars(mod)] + [vars(o) for o in vars(mod).values() if isinstance(o, type) and getattr(o, "__module__", None) == mod.__name__]
+    for d in owners:
+        for name, v in list(d.items()):
+            if isinstance(v, (set, dict, list)) and not name.startswith("__") and id(v) not in seen:
+                seen.add(id(v))
+                out.append(v)
+    return out
+
+
+def snapshot(containers):
+    import copy
+
+    return [(c, copy.copy(c)) for c in containers]
+
+
+def restore(snap):
+    for c, saved in snap:
+        if isinstance(c, list):
+            c[:] = saved
+        else:
+            c.clear()
+            c.update(saved)
+
+
+def canary_job(P, alpha, ctx, n, name):
+    """Instance A parses a symbolic program (template with holes); then fresh instances parse the canary programs.
+    Each canary's result must be what it is in a process where nothing else was parsed.  The module-level containers
+    of the parser module are put back to their load-time contents at the start of every path, so paths are independent
+    (and the canaries' own baselines are taken from that pristine state)."""
+    tpl = ctx.template(alpha, n)
+    Lex = toklex.make_lexer_class(tpl)
+    state = {}
+
+    def make_engine():
+        eng = E.Engine()
+        tpl.declare(eng)
+        return eng
+
+    def canary_results():
+        return [parse_outcome(P, lambda: P.CParser(), t, f"canary{i}.c") for i, t in enumerate(CANARIES)]
+
+    def once():
+        eng = E.cur()
+        if "snap" not in state:
+            state["snap"] = snapshot(module_containers(P))
+            state["base"] = [(r[0], show(r[1]) if r[0] == "ast" else r[1]) for r in canary_results()]
+        restore(state["snap"])
+        a = parse_outcome(P, lambda: P.CParser(lexer=Lex), "", "a.c")
+        after = [(r[0], show(r[1]) if r[0] == "ast" else r[1]) for r in canary_results()]
+        restore(state["snap"])
+        rec = {"cls": f"A:{a[0]}", "witness": {"canaries-after-" + a[0]: True}}
+        for i, (x, y) in enumerate(zip(after, state["base"])):
+            if x != y:
+                m = eng.model()
+                rec["viol"] = {"sig": "interference-canary", "diff": f"canary program #{i} parses differently after another instance parsed the program A: {x[0]} {str(x[1])[:80]!r} vs alone {y[0]}", "A": tpl.witness(m), "canary": i, "trace": [], "kind": "canary"}
+                rec["cls"] += "-DIFF"
+                break
+        return rec
+
+    return E.Job(f"canary:{name}", make_engine, once, split=("input", 2), max_samples=1)
+
+
+CANARY_REPLAY = '''
+import subprocess, json
+A = {a!r}
+CANARY = {canary!r}
+CODE = """
+import sys, io, json
+sys.path.insert(0, sys.argv[1])
+from pycparser import c_parser
+def outcome(text, fn):
+    try:
+        a = c_parser.CParser().parse(text, fn); b = io.StringIO(); a.show(buf=b, attrnames=True, nodenames=True, showcoord=True); return ["ast", b.getvalue()]
+    except c_parser.ParseError as e: return ["ParseError", str(e)]
+    except Exception as e: return ["exc", type(e).__name__]
+first, canary = json.loads(sys.stdin.read())
+if first is not None: outcome(first, "a.c")
+print(json.dumps(outcome(canary, "canary.c")))
+"""
+def run(first):
+    return json.loads(subprocess.run([sys.executable, "-c", CODE, sys.path[0]], input=json.dumps([first, CANARY]), capture_output=True, text=True).stdout)
+alone, after = run(None), run(A)
+print("alone:", alone[0], "| after A:", after[0], after[1][:200] if after[0] != "ast" else "")
+sys.exit(1 if alone != after else 0)
+'''
+
+
 # ---------------------------------------------------------------- (b) real lexer, concrete texts
 BASELINE_CODE = '''
 import sys, io, json
@@ -371,6 +473,19 @@ def main():
     jobs.append(real_job([TEXTS[4], TEXTS[5], TEXTS[1]], b["real3_switches"], "real3:e+f+b"))
     jobs.append(gen_job(GEN_TEXTS[:2], b["gen_switches"]))
     jobs.append(gen_job(GEN_TEXTS[1:], b["gen_switches"]))
+    # (d) any program first (symbolic), canaries afterwards
+    from checks import c03, c05
+    from symx.tokharness import PatCtx
+
+    q = checklib.tier() == "quick"
+    for c, n in c05.contexts(checklib.tier()) + c03.rare_contexts():
+        if isinstance(c, PatCtx):
+            if "+pragma" in c.name:
+                continue
+            jobs.append(canary_job(P, alpha, c, 0, c.name[:60]))
+        else:
+            jobs.append(canary_job(P, alpha, c, max(1, n - 2) if q else n - 1, c.name[:60]))
+    report.bounds["canaries"] = CANARIES
     first = True
     for job in jobs:
         if first:
@@ -391,6 +506,21 @@ def main():
                 report.known_hits[sig] = kf["what"]
                 continue
             report.violations.append({"sig": sig, "what": what, "replay": checklib.write_replay(PID, what, replay_real(v))})
+        elif v["kind"] == "canary":
+            import subprocess
+
+            a_text = toklex.render(v["A"])
+            path = checklib.write_replay(PID, v["diff"], CANARY_REPLAY.format(a=a_text, canary=CANARIES[v["canary"]]))
+            report.replayed += 1
+            rc = subprocess.run([checklib.VENV_PY, path], capture_output=True, text=True, timeout=600).returncode
+            if rc != 1:
+                report.unreproduced.append({"sig": sig, "diff": v["diff"], "A": a_text})
+                continue
+            what = f"{v['diff']} (program A: {a_text!r}; canary: {CANARIES[v['canary']]!r})"
+            if kf:
+                report.known_hits[sig] = kf["what"]
+                continue
+            report.violations.append({"sig": sig, "what": what, "replay": path})
         elif v["kind"] == "tok":
             # re-run through the real lexer: same programs as text, schedules re-explored by the replay script
             texts = [[toklex.render(v["A"]), "a.c"], [toklex.render(v["B"]), "b.c"]]
